@@ -15,9 +15,14 @@ def _cmp(left, op, right, subst, env):
   try:
     c = nf.compare_nf(ast.Compare(left=left, ops=[op], comparators=[right]), dict(env or {}))
   except nf.NFError:
-    return None
+    c = None
   if c is None:
-    return None
+    a, b = fold_numeric(left, subst), fold_numeric(right, subst)
+    fn = {ast.Lt: lambda x, y: x < y, ast.LtE: lambda x, y: x <= y, ast.Gt: lambda x, y: x > y, ast.GtE: lambda x, y: x >= y,
+          ast.Eq: lambda x, y: x == y, ast.NotEq: lambda x, y: x != y}.get(type(op))
+    if a is None or b is None or fn is None:
+      return None
+    return fn(a, b)
   e, sym = c
   try:
     e = e.subst(subst)
@@ -27,6 +32,48 @@ def _cmp(left, op, right, subst, env):
   if k is None:
     return None
   return {'<': k < 0, '<=': k <= 0, '==': k == 0, '!=': k != 0}[sym]
+
+
+def fold_numeric(expr, subst):
+  """Numeric value of `expr` once every atom of `subst` with a constant value is replaced by it: only literals, module constants
+  and + - * / // % ** abs min max are evaluated (arithmetic on numbers, nothing of the analysed program runs).  None if not constant."""
+  import operator
+  from fractions import Fraction
+  ops = {ast.Add: operator.add, ast.Sub: operator.sub, ast.Mult: operator.mul, ast.FloorDiv: operator.floordiv, ast.Mod: operator.mod,
+         ast.Div: operator.truediv}
+
+  def ev(n):
+    t = norm_text(n) if isinstance(n, ast.expr) else None
+    if t in subst:
+      k = subst[t].const_value() if hasattr(subst[t], 'const_value') else None
+      if k is None:
+        raise ValueError
+      return k if k.denominator != 1 else int(k)
+    c = U.const_value(n)
+    if c is not None:
+      return Fraction(str(c)) if isinstance(c, float) else c
+    if isinstance(n, ast.BinOp) and type(n.op) in ops:
+      a, b = ev(n.left), ev(n.right)
+      if isinstance(n.op, (ast.FloorDiv, ast.Mod, ast.Div)) and b == 0:
+        raise ValueError
+      if isinstance(n.op, ast.Div):
+        return Fraction(a) / Fraction(b)
+      return ops[type(n.op)](a, b)
+    if isinstance(n, ast.UnaryOp) and isinstance(n.op, (ast.USub, ast.UAdd)):
+      v = ev(n.operand)
+      return -v if isinstance(n.op, ast.USub) else v
+    if isinstance(n, ast.Call) and dotted(n.func) in ('abs', 'min', 'max', 'int', 'float') and n.args and not n.keywords:
+      vals = [ev(a) for a in n.args]
+      if dotted(n.func) in ('int', 'float'):
+        if len(vals) != 1 or (dotted(n.func) == 'int' and Fraction(vals[0]).denominator != 1):
+          raise ValueError
+        return vals[0]
+      return {'abs': lambda v: abs(v[0]), 'min': min, 'max': max}[dotted(n.func)](vals)
+    raise ValueError
+  try:
+    return ev(expr)
+  except (ValueError, TypeError, ZeroDivisionError):
+    return None
 
 
 def tv(test, subst, env=None):
@@ -45,6 +92,9 @@ def tv(test, subst, env=None):
     return False if any(x is False for x in vals) else (True if all(x is True for x in vals) else None)
   if isinstance(test, ast.Constant) and isinstance(test.value, bool):
     return test.value
+  if isinstance(test, (ast.BinOp, ast.Name, ast.Attribute, ast.Call, ast.UnaryOp)):
+    k = fold_numeric(test, subst)       # the truth of a number
+    return None if k is None else (k != 0)
   return None
 
 
